@@ -48,4 +48,9 @@ func TestCheckEligibleVictims(t *testing.T) {
 		func(t *rapid.T) *sim.World { return sim.GenWorld(t, profile()) }, sim.JudgeVictims)
 }
 
+// one scheduler process; the value of the running workloads' priority class is changed between cycles
+func TestCheckPriorityFlipFamilies(t *testing.T) {
+	sim.CheckProperty(t, "C06", kit.Budget{Quick: 1500, Thorough: 60000}, sim.GenPriorityFlipFamily, sim.JudgeVictims)
+}
+
 func TestReplay(t *testing.T) { sim.ReplayProperty(t, sim.JudgeVictims, 20) }
